@@ -12,6 +12,13 @@
   `gate-overlap` (DESIGN §6 F6).  What is proved is the statement restricted to the schedules in
   which no task opens a check…mark window on a namespace while another task's window on that
   namespace is open — `gateSerial st0 sched`, a decidable predicate of the schedule.
+
+  The refusing CONNECT (`Server._handle_connect`, `if success is False:` — same code as the asyncio
+  class: `is_connected`, `pre_disconnect`, send the refusal, `manager.disconnect`, no disconnect
+  handler) is a task kind of the model (`refuse`) and the theorems below quantify over initial states
+  that contain any number of them; its check…mark window counts for `gateSerial` like any other.
+  (The threaded harness does not schedule refusing CONNECTs: for that kind the theorems are about
+  the model only, tied to the code through the asyncio harness of C04.)
 -/
 import Sio.Lemmas.Sched
 namespace Sio.C20
@@ -27,7 +34,9 @@ theorem serial_inv (st0 : St) (h0 : Init st0) (sched : List Nat)
     which check…mark windows on one namespace do not overlap:
     the handler has run at most once per (sid, namespace) and no task has raised, nothing was
     swallowed — at every step; at quiescence every targeted namespace the sid was connected to
-    has had exactly one handler call and no trace of the sid remains (no room, not pending);
+    has had exactly one handler call — or, when a refusing CONNECT won its gate, none and exactly
+    one refusal; exactly one whenever no refusing CONNECT has the namespace on its list — and no
+    trace of the sid remains (no room, not pending);
     namespaces the sid was not connected to and namespaces nobody targets are unaffected. -/
 theorem gate_serial_partial (st0 : St) (h0 : Init st0) (sched : List Nat)
     (hs : gateSerial st0 sched = true) :
@@ -35,14 +44,60 @@ theorem gate_serial_partial (st0 : St) (h0 : Init st0) (sched : List Nat)
     ∧ anyRaised (run false st0 sched) = false
     ∧ (run false st0 sched).sh.contained = 0
     ∧ (allDone (run false st0 sched) = true → ∀ n, st0.sh.mem n = true → targeted st0 n = true →
-        ncalls (run false st0 sched) n = 1 ∧ residue (run false st0 sched) n = false)
+        residue (run false st0 sched) n = false ∧
+        ((ncalls (run false st0 sched) n = 1 ∧ (run false st0 sched).sh.refusals n = 0 ∧
+            ∃ k, k ≠ Kind.refuse ∧ (run false st0 sched).sh.marks n = [k]) ∨
+         (ncalls (run false st0 sched) n = 0 ∧ (run false st0 sched).sh.refusals n = 1 ∧
+            (run false st0 sched).sh.marks n = [Kind.refuse])) ∧
+        (refuseTargets st0 n = false → ncalls (run false st0 sched) n = 1))
     ∧ (∀ n, st0.sh.mem n = false →
         ncalls (run false st0 sched) n = 0 ∧ residue (run false st0 sched) n = false)
     ∧ (∀ n, targeted st0 n = false →
         (run false st0 sched).sh.mem n = st0.sh.mem n ∧ ncalls (run false st0 sched) n = 0 ∧
-        (run false st0 sched).sh.pend n = 0) :=
+        (run false st0 sched).sh.pend n = 0 ∧ (run false st0 sched).sh.refusals n = 0 ∧
+        (run false st0 sched).sh.marks n = []) :=
   conclusions false st0 h0 sched
     (fun pre hp => serial_inv st0 h0 pre (gateSerial_prefix pre sched st0 hp hs))
+
+/-- the statement as it was before refusing CONNECTs were modelled: when no task is a refusing
+    CONNECT, "exactly one handler call" at quiescence, unconditionally -/
+theorem gate_serial_causes_only (st0 : St) (h0 : Init st0) (sched : List Nat)
+    (hs : gateSerial st0 sched = true) (hk : ∀ t ∈ st0.tasks, t.kind ≠ .refuse)
+    (hd : allDone (run false st0 sched) = true) (n : Ns) (hm : st0.sh.mem n = true)
+    (ht : targeted st0 n = true) :
+    ncalls (run false st0 sched) n = 1 ∧ residue (run false st0 sched) n = false := by
+  obtain ⟨_, _, _, h4, _, _⟩ := gate_serial_partial st0 h0 sched hs
+  obtain ⟨q1, _, q3⟩ := h4 hd n hm ht
+  refine ⟨q3 ?_, q1⟩
+  simp only [refuseTargets, List.any_eq_false]
+  intro t htm
+  have := hk t htm
+  simp [this]
+
+/-- (partial: `gateSerial`) once a refusing CONNECT has passed the gate of `n`, no gate-serial
+    continuation adds a disconnect-handler call for `n` -/
+theorem serial_refused_never_notified_after (st0 : St) (h0 : Init st0) (s1 s2 : List Nat) (n : Ns)
+    (hs : gateSerial st0 (s1 ++ s2) = true)
+    (h : (run false st0 s1).tasks.any (refusedPast n) = true ∨
+         Kind.refuse ∈ (run false st0 s1).sh.marks n) :
+    (run false st0 (s1 ++ s2)).sh.calls n = [] ∧
+    (run false st0 (s1 ++ s2)).sh.marks n = [Kind.refuse] := by
+  have hs1 := gateSerial_prefix s1 (s1 ++ s2) st0 (List.prefix_append s1 s2) hs
+  apply refused_sticky false st0 s1 s2 n (serial_inv st0 h0 (s1 ++ s2) hs)
+  rcases h with h | h
+  · rw [inv_refusedPast _ _ (serial_inv st0 h0 s1 hs1) n h]; omega
+  · exact List.count_pos_iff.mpr h
+
+/-- a refusing CONNECT (task 0: handler decides, check, mark, send, cleanup) and `disconnect()`
+    (task 1) with serial gates, the refusal first: no handler call, one refusal; and the hypotheses
+    of `serial_refused_never_notified_after` are met after the prefix `[0, 0, 0]` -/
+example :
+    let st0 := mkSt [(.refuse, [0]), (.api, [0])] [0] []
+    gateSerial st0 ([0, 0, 0] ++ [1, 0, 0]) = true
+    ∧ (run false st0 [0, 0, 0]).tasks.any (refusedPast 0) = true
+    ∧ allDone (run false st0 ([0, 0, 0] ++ [1, 0, 0])) = true
+    ∧ (run false st0 ([0, 0, 0] ++ [1, 0, 0])).sh.calls 0 = []
+    ∧ (run false st0 ([0, 0, 0] ++ [1, 0, 0])).sh.refusals 0 = 1 := by decide
 
 /-- windows on DIFFERENT namespaces may overlap freely: the hypothesis is per namespace -/
 example :
@@ -63,6 +118,8 @@ def twoShared : St := mkSt [(.api, [0]), (.clientDisc, [0])] [0] [0]
 def twoLost : St := mkSt [(.api, [0]), (.lost, [0])] [0] []
 
 example : Init two := mkSt_init _ _ _
+
+example : ∀ t ∈ two.tasks, t.kind ≠ .refuse := by decide
 
 /-- Both pass `check` before either executes `mark`: the application's disconnect handler runs
     TWICE for the same sid; the second `manager.disconnect` finds the namespace gone and returns
